@@ -427,16 +427,24 @@ def activate(clf, target):
     try:
         log.debug("trying to activate {0}".format(target))
         if target.brty.endswith('A'):
-            if target.sens_res[1] & 0x0F == 0x0C:
+            if target.sens_res is None:
+                log.debug("no SENS_RES, this is not a tag")
+            elif target.sens_res[1] & 0x0F == 0x0C:
                 return activate_tt1(clf, target)
             elif target.sel_res[0] >> 5 & 3 == 0:
                 return activate_tt2(clf, target)
             elif target.sel_res[0] >> 5 & 1 == 1:
                 return activate_tt4(clf, target)
         elif target.brty.endswith('B'):
-            return activate_tt4(clf, target)
+            if target.sensb_res is None:
+                log.debug("no SENSB_RES, this is not a tag")
+            else:
+                return activate_tt4(clf, target)
         elif target.brty.endswith('F'):
-            return activate_tt3(clf, target)
+            if target.sensf_res is None:
+                log.debug("no SENSF_RES, this is not a tag")
+            else:
+                return activate_tt3(clf, target)
     except nfc.clf.CommunicationError:
         return None
 
